@@ -108,6 +108,11 @@ class Trace:
         """completed status, signal set, every result terminal"""
         return st is not None and st[0] == 'completed' and st[1] is True and all(r[2] in ('completed', 'error') for r in st[2])
 
+    @staticmethod
+    def st_done(st):
+        """processed: status completed and every result terminal (the completion signal may lag by a callback burst)"""
+        return st is not None and st[0] == 'completed' and all(r[2] in ('completed', 'error') for r in st[2])
+
     def intervals(self):
         """handler activity intervals: (enter_seq, exit_seq|None, bus, h, ev, who)"""
         ex = {}
